@@ -38,7 +38,8 @@ def selections(cond, extra=False):
 def harness(cond, sel, N, value_eq=False, count=False):
     kind, svars = sel
     sel_kid = "x.kid" in svars
-    pv = tuple(v for v in svars if v != "x.kid")
+    sel_attr = "x.a" in svars
+    pv = tuple(v for v in svars if v not in ("x.kid", "x.a"))
 
     def h(ctx):
         w = World(ctx, cond, pv, N, value_eq=value_eq)
@@ -49,7 +50,9 @@ def harness(cond, sel, N, value_eq=False, count=False):
         args = () if ce is None else (ce,)
         x = w.var("x") if "x" in w.vars else None
         xkid = x.kid if sel_kid else None  # one expression object: it is also the key of the result rows
-        sel_exprs = [w.var(v) for v in pv] + ([xkid] if sel_kid else [])
+        xa = x.a if sel_attr else None
+        sel_exprs = [w.var(v) for v in pv] + ([xkid] if sel_kid else []) + ([xa] if sel_attr else [])
+        attr_terms = []
         if kind == "entity":
             q = an(entity(sel_exprs[0], *args))
         else:
@@ -65,6 +68,12 @@ def harness(cond, sel, N, value_eq=False, count=False):
                         i = row[pv.index("x")]
                         if i < 0 or r[xkid] is not w.dom["x"][i].kid:
                             bad_rows += 1
+                    if sel_attr:
+                        i = row[pv.index("x")]
+                        if i < 0:
+                            bad_rows += 1
+                        else:
+                            attr_terms.append(EQ(r[xa], w.dom["x"][i].a))  # the selected expression applied to the same row's x
                     rows.append(row)
         except (NoSolutionFound, MultipleSolutionFound) as e:
             exc = type(e).__name__
@@ -93,7 +102,7 @@ def harness(cond, sel, N, value_eq=False, count=False):
         truth = [w.truth(cond, a) for a in asg]
         proj = [tuple(w.index(u, a[u]) for u in pv) for a in asg]
         v["rows-are-domain-elements" + sfx] = all(i >= 0 for r in rows for i in r)
-        v["rows-consistent" + sfx] = bad_rows == 0
+        v["rows-consistent" + sfx] = AND([bad_rows == 0] + attr_terms)
         if not count:
             rs = set(rows)
             v["sound" + sfx] = IMPLIES(pre, AND([OR([t for t, p in zip(truth, proj) if p == r]) for r in rs])) if rs else True
@@ -187,12 +196,16 @@ def make_cases(tier, count=False, fragment=None):
                 cs.append(Case(name + "|N<=%d" % N, harness(cond, sel, N, veq, count), key=name, reset=eql_reset, timeout=150 if tier == "quick" else 600,
                                max_paths=30000 if tier == "quick" else 200000, core=core, validate=1, meta=dict(N=N), cex_grace=10**9))
     if not count:
-        for sel in [("entity", ("x",)), ("set_of", ("x", "y")), ("set_of", ("x", "x.kid"))]:
+        for sel in [("entity", ("x",)), ("set_of", ("x", "y")), ("set_of", ("x", "x.kid")), ("set_of", ("x", "x.a"))]:
             name = "%s(%s|true)" % (sel[0], ",".join(sel[1]))
             cs.append(Case(name + "|N<=%d" % N, harness(None, sel, N), key=name, reset=eql_reset, validate=1, meta=dict(N=N)))
         cond = relabel_lits(("cmp", ">", ("a", "x"), ("lit", 0)))
-        name = "set_of(x,x.kid|%s)" % show(cond)
-        cs.append(Case(name + "|N<=%d" % N, harness(cond, ("set_of", ("x", "x.kid")), N), key=name, reset=eql_reset, validate=1))
+        for extra_sel in ("x.kid", "x.a"):
+            name = "set_of(x,%s|%s)" % (extra_sel, show(cond))
+            cs.append(Case(name + "|N<=%d" % N, harness(cond, ("set_of", ("x", extra_sel)), N), key=name, reset=eql_reset, validate=1))
+        cond2 = relabel_lits(("or", ("cmp", "==", ("a", "x"), ("lit", 0)), ("cmp", "<", ("a", "x"), ("a", "y"))))
+        name = "set_of(x,x.a|%s)" % show(cond2)
+        cs.append(Case(name + "|N<=%d" % N, harness(cond2, ("set_of", ("x", "x.a")), N), key=name, reset=eql_reset, validate=1, cex_grace=10**9))
     return cs
 
 
